@@ -639,6 +639,30 @@ def pre_direct(case, Ks, Ds, obs):
     return fails
 
 
+def pre_fragile(case, Ks, metas, obs):
+    """the factor inside the preconditioner is a pivoted Cholesky run of its own: the same robustness filter as for the
+    pivoted-Cholesky cases (near ties, rounding-dependent ties, error within rounding of the tolerance), evaluated on the
+    library's factor of a fresh operator under the same settings"""
+    if obs.get("raised") is not None or obs.get("none") or case["fam"] == "indefinite" or case["dkind"].startswith("ubK_bD"):
+        return False
+    from linear_operator import settings
+    n = case["n"]
+    try:
+        Kop = G.build_op(case["cls"], Ks, metas, tuple(case["batch"]), case["fam"])
+        with settings.preconditioner_tolerance(case["tol"]), warnings.catch_warnings():
+            warnings.simplefilter("ignore")
+            L, p = Kop.pivoted_cholesky(case["max_size"], return_pivots=True)
+        r = L.shape[-1]
+        pobs = {"raised": None, "r": r, "shape_ok": True, "dtype_ok": True, "L": L.reshape(-1, n, r), "perm": p.reshape(-1, n)}
+        pcase = {"n": n, "rank": case["max_size"], "etol": None, "st_tol": case["tol"]}
+        fails, info = pc_direct(pcase, Ks, pobs)
+        if fails:
+            return False                   # a wrong factor is for the predicates, not for the filter
+        return pc_fragile(pcase, Ks, pobs, info)
+    except Exception:
+        return False
+
+
 def pre_direct_with_library_factor(case, Ks, Ds, obs):
     torch = _torch()
     from linear_operator import settings
@@ -793,13 +817,24 @@ def collect(ctx, direct_only=False):
         recs.append((case, Ks, None, obs, None if direct_only else pc_case_lit(case, Ks, obs)))
 
     for case in pre_grid(ctx):
-        Ks, metas, Dspec, Ds = materialise_pre(case)
-        obs = run_pre(case, Ks, metas, Dspec, Ds)
+        fragile = False
+        for attempt in range(6):
+            Ks, metas, Dspec, Ds = materialise_pre(case)
+            obs = run_pre(case, Ks, metas, Dspec, Ds)
+            if obs is None:
+                break
+            fails = pre_direct(case, Ks, Ds, obs)
+            fragile = (not fails) and pre_fragile(case, Ks, metas, obs)
+            if fails or not fragile:
+                break
+            stats["redrawn"] += 1
+            case = dict(case, vseed=case["vseed"] * 31 + 11 + attempt)
         if obs is None:
             stats["skipped_class"] += 1
             continue
         stats["pre"] += 1
-        fails = pre_direct(case, Ks, Ds, obs)
+        if fragile:
+            continue                       # no robust draw found: not compared against the model
         if fails:
             what, msg = fails[0]
             report(case, {"kind": "preconditioner-property", "case": jsonable(case, Ks, Ds), "what": [m for _, m in fails][:4],
